@@ -152,6 +152,13 @@ def run(chk):
     chk.decide(sorted(members) == sorted(k + ".npy" for k in kw) and kw == {"operator": "OPERATOR", "error": "ERROR"}, "npz-members-agree",
                "crates/dekoder/src/inventory.rs::load", f"the reader asks the npz for {members}; the writer stores {kw} (member -> content; numpy appends "
                f".npy to the names)", where=finv.rel, how="PE of the writer on a model file system")
+    # an error tensor that happens to vanish (the identity at the initial scale, a matching at LO) is an error tensor all the same:
+    # the reader opens the npz with both members for every listed point
+    wz = written.get("with-vanishing-error", {})
+    chk.decide(wz.get("container") == "npz" and set((wz.get("members") or {})) == {"operator", "error"} and wz.get("suffix") == werr.get("suffix"),
+               "npz-members-agree", fset.qname, f"an operator whose error tensor is identically zero is written as {wz}: the reader then finds no "
+               f"`{r_ext}` file with the members {members} for a point it lists", where=fset.where, instance="vanishing error tensor",
+               how="PE of the writer on a model file system")
     # which member goes where
     # which member fills which FIELD of the returned Operator (through whatever local variables): `Operator { op, err }` or
     # `Operator { op: a, err: b }`, with `let a = Some(npz.by_name("..."))`
@@ -217,7 +224,9 @@ def _python_writer_table(src):
 
     out = {}
     icls = src.cls(f"{INV}.Inventory")
-    for label, with_err in (("with-error", True), ("without-error", False)):
+    from ..arr import Arr
+
+    for label, with_err in (("with-error", True), ("with-vanishing-error", "zero"), ("without-error", False)):
         fs = fsmodel.FS()
         pe = PE(src)
         fsmodel.install(pe, fs)
@@ -229,7 +238,7 @@ def _python_writer_table(src):
         h = Obj(src.cls("eko.io.items.Target"))
         h.attrs.update(scale=fsmodel.NpScalar(Fraction(9)), nf=fsmodel.NpScalar(4, "int64"))
         o = Obj(src.cls("eko.io.items.Operator"))
-        o.attrs.update(operator="OPERATOR", error="ERROR" if with_err else None)
+        o.attrs.update(operator="OPERATOR", error=(Arr.from_nested([[[[0, 0]]]]) if with_err == "zero" else "ERROR") if with_err else None)
         try:
             pe.apply(pe.getattr(inv, "__setitem__"), [h, o], {})
         except Exception as e:  # the table then simply lacks the entry
